@@ -313,14 +313,12 @@ def deep_compare(obj1: Any,
                         return result
             else:
                 try:
-                    if isinstance(value1, bool):
-                        if not isinstance(value2, bool):
-                            return -1
+                    if isinstance(value1, bool) or isinstance(value2, bool):
+                        if not isinstance(value1, bool) or not isinstance(value2, bool):
+                            msg = msg_tmpl.format(value1, value2)
+                            raise xpath_error('XPTY0004', msg, token)
                         elif value1 is not value2:
-                            return -1 if value1 else 1
-
-                    elif isinstance(value2, bool):
-                        return -1
+                            return 1 if value1 else -1  # false < true
 
                     elif isinstance(value1, UntypedAtomic):
                         if isinstance(value2, UntypedAtomic):
